@@ -1,6 +1,7 @@
 import DryocVerif.Proofs.Poly1305Main
 import DryocVerif.Model.Utils
 import DryocVerif.Proofs.Blake2bMain
+import DryocVerif.Proofs.Core
 /-
 C07 — hash, MAC and core primitives equal their specifications on every input.
 Property theorems only; helper lemmas live in `DryocVerif/Proofs`.
@@ -174,5 +175,104 @@ theorem blake2b_compress_eq_spec (h : Array UInt64) (t0 t1 f0 f1 : UInt64) (bloc
     (hf0 : f0 = if last then 0xFFFFFFFFFFFFFFFF else 0) (hf1 : f1 = 0) :
     compress h t0 t1 f0 f1 block = Spec.Blake2b.compress h block T last :=
   Proofs.Blake2b.compress_eq_spec h t0 t1 f0 f1 block T last hh hb ht0 ht1 hf0 hf1
+
+/-! ### HSalsa20 / HChaCha20 (`crypto_core_hsalsa20`, `crypto_core_hchacha20`) -/
+
+/-- one iteration of `crypto_core_hsalsa20`'s loop (the 32 statements `x4 ^= rotl32(x0 + x12, 7)` …, in
+code order, on the sixteen named variables) is Bernstein's `doubleround` on the state array -/
+theorem hsalsa20_round_eq_spec (s : Model.Core.X16) :
+    Proofs.Core.toArr (Model.Core.hsalsa20Body s) = Spec.Salsa20.doubleRound (Proofs.Core.toArr s) :=
+  Proofs.Core.hsalsa20Body_eq_doubleRound s
+
+/-- `crypto_core_hsalsa20(…, None)` computes HSalsa20 for **every** 32-byte key and 16-byte input. -/
+theorem hsalsa20_model_eq_spec (key inp : Bytes) (hk : key.length = 32) (hi : inp.length = 16) :
+    Model.Core.hsalsa20 key inp none = Spec.Salsa20.hsalsa20 key inp :=
+  Proofs.Core.hsalsa20_eq_spec key inp hk hi
+
+/-- … and with `Some((c0, c1, c2, c3))` it is the specification's HSalsa20 with the 16-byte constant
+`c0 ‖ c1 ‖ c2 ‖ c3` (little-endian words), for every choice of the four words. -/
+theorem hsalsa20_model_eq_spec_const (key inp : Bytes) (c : UInt32 × UInt32 × UInt32 × UInt32)
+    (hk : key.length = 32) (hi : inp.length = 16) :
+    Model.Core.hsalsa20 key inp (some c) = Spec.Salsa20.hsalsa20 key inp (Proofs.Core.constBytes c) :=
+  Proofs.Core.hsalsa20_words_eq_spec key inp c hk hi
+
+/-- the same, starting from the 16-byte constant (the words the caller loads with `load_u32_le`) -/
+theorem hsalsa20_model_eq_spec_const_bytes (key inp c : Bytes) (hk : key.length = 32) (hi : inp.length = 16)
+    (hc : c.length = 16) :
+    Model.Core.hsalsa20 key inp (Proofs.Core.constOfBytes c) = Spec.Salsa20.hsalsa20 key inp c :=
+  Proofs.Core.hsalsa20_const_eq_spec key inp c hk hi hc
+
+/-- one iteration of `crypto_core_hchacha20`'s loop (eight `chacha20_quarterround`s in code order) is
+RFC 8439's `inner_block` -/
+theorem hchacha20_round_eq_spec (s : Model.Core.X16) :
+    Proofs.Core.toArr (Model.Core.hchacha20Body s) = Spec.ChaCha20.innerBlock (Proofs.Core.toArr s) :=
+  Proofs.Core.hchacha20Body_eq_innerBlock s
+
+/-- `crypto_core_hchacha20(…, None)` computes HChaCha20 (draft-irtf-cfrg-xchacha §2.2) for **every**
+32-byte key and 16-byte input. -/
+theorem hchacha20_model_eq_spec (key inp : Bytes) (hk : key.length = 32) (hi : inp.length = 16) :
+    Model.Core.hchacha20 key inp none = Spec.ChaCha20.hchacha20 key inp :=
+  Proofs.Core.hchacha20_eq_spec key inp hk hi
+
+/-- with `Some((c0, c1, c2, c3))`: the same construction on the state `c0 c1 c2 c3 | key | input`
+(`Spec.ChaCha20.hchacha20` has no constant parameter, so the right-hand side spells it out) -/
+theorem hchacha20_model_eq_spec_const (key inp : Bytes) (c : UInt32 × UInt32 × UInt32 × UInt32)
+    (hk : key.length = 32) (hi : inp.length = 16) :
+    Model.Core.hchacha20 key inp (some c) =
+      (let z := Spec.ChaCha20.rounds20 (#[c.1, c.2.1, c.2.2.1, c.2.2.2] ++
+          Spec.ChaCha20.wordsOfBytes (key.take 32) ++ Spec.ChaCha20.wordsOfBytes (inp.take 16))
+       Spec.ChaCha20.bytesOfWords (z.extract 0 4 ++ z.extract 12 16)) :=
+  Proofs.Core.hchacha20_words_eq key inp c hk hi
+
+/-! ### SipHash-2-4 (`crypto_shorthash`) -/
+
+/-- the heart of the SipHash equivalence: the `chunks_exact(8)` loop, `b = (len as u64) << 56` and the
+remainder loop `b |= remainder[i] << (i * 8)` feed the compression exactly the specification's word
+sequence `parse msg` (last word = the remaining bytes little-endian with `len mod 256` on top) -/
+theorem siphash_words (msg : Bytes) :
+    Spec.SipHash.parse msg =
+      (Model.Core.chunksExact 8 msg).map Model.Utils.loadU64LE ++
+        [Model.Core.sipLastWord msg.length (Model.Core.chunksExactRemainder 8 msg)] :=
+  Proofs.Core.siphash_words msg
+
+/-- siphash24.rs computes SipHash-2-4 for **every** 16-byte key and **every** message of every length. -/
+theorem siphash_model_eq_spec (key msg : Bytes) (hk : key.length = 16) :
+    Model.Core.siphash24 key msg = Spec.SipHash.siphash24 key msg :=
+  Proofs.Core.siphash24_eq_spec key msg hk
+
+/-! ### HMAC-SHA-512-256 (`crypto_auth`)
+
+SHA-512 itself is the `sha2` crate (not dryoc code): the model takes the hash as a parameter `H` and is
+instantiated here with the FIPS 180-4 specification `Spec.Sha512.sha512`; sha2's block buffering is
+not modelled. -/
+
+/-- the construction of crypto_auth.rs over **any** hash `H`, for every key of at most one block:
+`H(K ⊕ opad ‖ H(K ⊕ ipad ‖ msg))[..32]` with `K` the zero-padded key -/
+theorem hmac_model_structure (H : Bytes → Bytes) (key msg : Bytes) (hk : key.length ≤ 128) :
+    Model.Core.hmac H key msg = .ok ((H (xorBytes (Proofs.Core.padKey key) Spec.Hmac.opad ++
+      H (xorBytes (Proofs.Core.padKey key) Spec.Hmac.ipad ++ msg))).take 32) :=
+  Proofs.Core.hmac_ok H key msg hk
+
+/-- `crypto_auth` = RFC 2104 HMAC-SHA-512 truncated to 32 bytes, for every 32-byte key and every message -/
+theorem hmac_model_eq_spec (key msg : Bytes) (hk : key.length = 32) :
+    Model.Core.hmac Spec.Sha512.sha512 key msg = .ok (Spec.Hmac.hmacSha512256 key msg) :=
+  Proofs.Core.hmac_eq_spec_le key msg (by omega)
+
+/-- … in fact for every key of 0..=128 bytes -/
+theorem hmac_model_eq_spec_le (key msg : Bytes) (hk : key.length ≤ 128) :
+    Model.Core.hmac Spec.Sha512.sha512 key msg = .ok (Spec.Hmac.hmacSha512256 key msg) :=
+  Proofs.Core.hmac_eq_spec_le key msg hk
+
+/-- the latent defect in `crypto_auth_hmacsha512256_init`: for a key longer than 128 bytes the loops
+`for i in 0..keylen { pad[i] ^= key[i] }` run over the *original* length while `key` is now the 64-byte
+hash → index-out-of-bounds panic.  Unreachable: every caller passes `&[u8; 32]`. -/
+theorem hmac_init_long_key_panics (H : Bytes → Bytes) (key : Bytes) (hk : key.length > 128)
+    (hH : (H key).length = 64) : Model.Core.hmacInit H key = .panic :=
+  Proofs.Core.hmacInit_long_key_panics H key hk hH
+
+/-- `crypto_auth_verify` accepts exactly the correct authenticator -/
+theorem hmac_verify_ok_iff (key msg mac : Bytes) (hk : key.length = 32) :
+    Model.Core.hmacVerify Spec.Sha512.sha512 mac msg key = .ok () ↔ mac = Spec.Hmac.hmacSha512256 key msg :=
+  Proofs.Core.hmacVerify_ok_iff key msg mac (by omega)
 
 end DryocVerif.Properties.C07
